@@ -104,7 +104,7 @@ static void observe(Inst& m) {
 }
 
 static void one_step(Inst& m) {
-  unsigned char op = draw() % 6;
+  unsigned char op = draw() % 7;
 #if MANUAL
   if (!m.isActive()) { m.enter(); observe(m); return; }
   if (op == 5) { m.exit(); observe(m); return; }
@@ -121,6 +121,7 @@ static void one_step(Inst& m) {
 #if PAYLOAD
   else if (op == 5) { Pay p; p.v = draw(); m.immediateChangeWith(below(NST), p); }
 #endif
+  else if (op == 6) { int o = below(NST), d = below(NST); m.plan().change(o, d); m.update(); }     // plan a task and run a cycle
   observe(m);
 }
 
